@@ -4,9 +4,14 @@ from .. import nodegen
 from ._nodecommon import *
 
 ID = "C15"
-LEAN_MODULES = ["VpnCloud.Proofs.C15", "VpnCloud.Proofs.C15Node"]
+LEAN_MODULES = ["VpnCloud.Proofs.C15", "VpnCloud.Proofs.C15Node", "VpnCloud.Proofs.C15More"]
 THEOREMS = ["VpnCloud.Proofs.C15." + n for n in ("interval_safe", "keepalive_default_safe", "backoff_bounded")] + [
-            "VpnCloud.Proofs.C15Node.housekeep_removes_expired", "VpnCloud.Proofs.C15Node.expired_peer_removed"]
+            "VpnCloud.Proofs.C15Node.housekeep_removes_expired", "VpnCloud.Proofs.C15Node.expired_peer_removed"] + [
+            "VpnCloud.Proofs.C15More." + n for n in ("housekeep_schedules_safe", "housekeep_delay_safe_for_peer", "housekeep_keeps_schedule", "housekeep_interval_no_panic",
+                "announced_info", "announce_reaches_every_peer", "announced_timeout_decodes", "peers_after_message", "refresh_sets_expiry", "message_keeps_other_peers",
+                "data_does_not_refresh", "healthy_never_expires", "tinv_after_announcement", "publish_le_own", "timeout_zero_expires", "advertised_above_own_expires",
+                "late_first_announcement_expires", "silent_removed", "silent_removed_node", "expired_peer_redialled", "handshake_sets_expiry", "handshake_keeps_schedule",
+                "reconnect_forever", "housekeep_reconnect_forever", "reconnect_dials", "housekeep_dials")]
 RULE = ("suite node: announcement interval through a real node's housekeeping for own settings (peer timeout, keepalive) from a grid incl. 0, 1, 59, 60, 119, 120, 121, 300, 65535 x advertised "
         "timeouts (all 65536 in thorough, boundary values and a sample in quick); heterogeneous meshes run for 3 x the largest timeout; silence injection (all datagrams of one node dropped from time t); "
         "back-off of a configured unreachable peer over 48 h (thorough) / 3 h (quick) of simulated time; distinct non-trivial = distinct (op, #datagrams out, #interface writes, #peers, #pending, mutation kind)")
@@ -37,3 +42,4 @@ def gen(tier, rng):
     yield nodegen.c15_multi_interval_script(rng, "interval-multi", combos)
     yield nodegen.c15_multi_interval_script(rng, "interval-multi-ka", combos[:20], own=(300, "1000"))
     yield nodegen.c15_learned_timeout_script(rng, "learned-timeout")
+    yield nodegen.announce_script(rng, "announce", 100 if thorough else 40)          # keepalives / node information refresh the expiry; advertised timeouts vary
